@@ -170,6 +170,7 @@ def base_triangle(rng, vk, basis, n_slices, res=None, fields=None, n_periods=Non
 # ----------------------------------------------------------------------------------------------
 
 REGISTRY = {}
+SLOW_OPS = {"to_chain_ladder"}
 
 
 def op(name, chain=False, plot=False, res=None, basis=None, vk=None):
@@ -688,7 +689,8 @@ class Scenario:
         return outcome, res
 
 
-def run_scenario(ctx, name, shape, position, seed, readonly, stats):
+def run_scenario(ctx, name, shape, position, seed, readonly):
+    """returns (case, scenario, outcome of the operation under test)"""
     entry = REGISTRY[name]
     rng = random.Random(seed)
     vk, basis, ns = shape
@@ -711,11 +713,48 @@ def run_scenario(ctx, name, shape, position, seed, readonly, stats):
         # the chain produced something the operation refuses: also run it on the initial triangle
         outcome2, res = sc.call(name, entry["build"], rng, t0, case)
         outcome = outcome2 if outcome2 == "returned" else outcome
-    stats.setdefault(name, {}).setdefault(outcome.split(":")[0], 0)
-    stats[name][outcome.split(":")[0]] += 1
-    if outcome != "returned":
-        stats[name].setdefault("errors", set()).add(outcome)
-    return case, sc
+    return case, sc, outcome
+
+
+class _MiniCtx:
+    """what a worker process records; merged into the real Ctx by the parent"""
+
+    def __init__(self):
+        self.fails = []
+
+    def fail(self, clause, case, detail=None):
+        self.fails.append((clause, case, detail))
+
+
+def _work(task):
+    """one scenario in a worker process (fork: the registry and the imports are inherited)"""
+    name, shape, position, seed, readonly = task
+    mini = _MiniCtx()
+    try:
+        case, sc, outcome = run_scenario(mini, name, shape, position, seed, readonly)
+        res = {"task": task, "fails": mini.fails, "outcome": outcome, "trace": sc.trace,
+               "shape": case["shape"], "chain": case["chain"], "crash": None}
+    except Exception as e:  # noqa: BLE001  -- harness-side problem, reported as infrastructure
+        res = {"task": task, "fails": mini.fails, "outcome": "crash", "trace": [], "shape": None, "chain": [],
+               "crash": f"{type(e).__name__}: {str(e)[:300]}"}
+    cleanup_tmp()
+    return res
+
+
+def run_tasks(tasks):
+    import multiprocessing as mp
+
+    n = int(os.environ.get("VERIF_JOBS", "0") or 0) or max(1, min(8, (os.cpu_count() or 2) // 2))
+    if n <= 1 or len(tasks) < 8:
+        return [_work(t) for t in tasks]
+    # longest first (plots), one task at a time, so that the workers finish together
+    order = sorted(range(len(tasks)), key=lambda i: (not REGISTRY[tasks[i][0]]["plot"], i))
+    with mp.get_context("fork").Pool(n) as pool:
+        done = pool.map(_work, [tasks[i] for i in order], chunksize=1)
+    out = [None] * len(tasks)
+    for i, r in zip(order, done):
+        out[i] = r
+    return out
 
 
 # ----------------------------------------------------------------------------------------------
@@ -838,6 +877,7 @@ def correspondence(ctx):
     names = list(REGISTRY)
     n_shapes = 4
     reps = 20 if ctx.thorough else 1
+    tasks = []
     for rep in range(reps):
         for oi, name in enumerate(names):
             entry = REGISTRY[name]
@@ -848,20 +888,33 @@ def correspondence(ctx):
                 for position in (0, 1, 2):
                     if ctx.thorough and rep > 0:
                         position = rng.randrange(0, 9)
-                    if entry["plot"] and (ctx.thorough and rep > 2 or not ctx.thorough and (si + position) % 3 != 0):
-                        continue                              # plots: a third of the grid in quick (run time)
+                    slow = entry["plot"] or name in SLOW_OPS
+                    if slow and (ctx.thorough and rep > 2 or not ctx.thorough and si != 0):
+                        continue          # slow operations (altair, chainladder): one shape x 3 positions in quick
                     seed = rng.randrange(1 << 30)
                     for readonly in (False, True):
-                        if entry["plot"] and readonly and position != 0:
+                        if slow and readonly and position != 0:
                             continue
-                        case, sc = run_scenario(ctx, name, shape, position, seed, readonly, stats)
-                        cleanup_tmp()
-                        ctx.case(digest=json.dumps([name, shape, position, seed, readonly]), nontrivial=True,
-                                 sample={"op": name, "shape": case["shape"], "position": position, "chain": case["chain"],
-                                         "outcomes": sc.trace} if oi % 17 == 3 and si == 0 and position == 2 and not readonly else None)
-                        ctx.count(f"shape/{shape[0]}-{shape[1]}-{shape[2]}")
-                        ctx.count(f"position/{min(position, 3)}{'+' if position >= 3 else ''}")
-                        ctx.count("run/readonly" if readonly else "run/plain")
+                        tasks.append((name, shape, position, seed, readonly))
+    # scenarios are independent (own seed each): run them in worker processes, merge in task order
+    results = run_tasks(tasks)
+    for i, res in enumerate(results):
+        name, shape, position, seed, readonly = res["task"]
+        if res["crash"]:
+            raise common.Infra(f"C03 scenario {res['task']} crashed in the harness: {res['crash']}")
+        for clause, case, detail in res["fails"]:
+            ctx.fail(clause, case, detail)
+        outcome = res["outcome"]
+        st = stats.setdefault(name, {})
+        st[outcome.split(":")[0]] = st.get(outcome.split(":")[0], 0) + 1
+        if outcome != "returned":
+            st.setdefault("errors", set()).add(outcome)
+        ctx.case(digest=json.dumps([name, shape, position, seed, readonly]), nontrivial=True,
+                 sample={"op": name, "shape": res["shape"], "position": position, "chain": res["chain"],
+                         "outcomes": res["trace"]} if i % 401 == 200 else None)
+        ctx.count(f"shape/{shape[0]}-{shape[1]}-{shape[2]}")
+        ctx.count(f"position/{min(position, 3)}{'+' if position >= 3 else ''}")
+        ctx.count("run/readonly" if readonly else "run/plain")
     never = sorted(n for n, s in stats.items() if not s.get("returned"))
     excluded = sorted(n for n in never if n in ("Triangle.plot_drip", "Triangle.plot_hose"))
     ctx.notes.append(f"registered operations: {len(REGISTRY)}; returned at least once: {len(REGISTRY) - len(never)}")
@@ -876,10 +929,9 @@ def correspondence(ctx):
 
 
 if __name__ == "__main__":
-    gen_note = translate_c03.regenerate()
     common.run_check(
         "C03", module="Bermuda.Properties.C03", driver_targets=["drv_c03"],
-        correspondence=correspondence, level="translation_validation",
+        correspondence=correspondence, level="translation_validation", extra_translate=translate_c03.regenerate,
         rule="registry of public operations (Triangle/Cell API, bermuda.utils, io writers to temp files + readers, "
              "build_plot_data, plot_*) x 4 of the 12 argument shapes (scalar/array x cumulative/incremental x 1-3 slices) "
              "x chain position 0/1/2 (thorough: x20, random chains up to 8 links) x {plain, read-only arrays}; deep "
@@ -888,5 +940,5 @@ if __name__ == "__main__":
         assumptions=["aliasing inside numpy/pandas/altair is not modelled; a mutation that is undone before the call "
                      "returns is invisible to fingerprints (the read-only run catches the array case)"],
         trusted=["fingerprint = class, dates, metadata repr (dict order), key order, value type, dtype, shape, bytes",
-                 "harness/translate_c03.py (accumulator patterns from the AST, regenerated each run): " + json.dumps(gen_note)],
+                 "harness/translate_c03.py (accumulator patterns from the AST, regenerated under the build lock each run)"],
     )
